@@ -8,8 +8,8 @@
    block); the readers (ReadDictEnc + deGetRec, raw iteration with getCurrentRecordLength, the
    constant-record-length shortcut, GetCvalFromRec, convertRawRecordsToTimestamps); match-all over
    the blocks of a segment.  strconv.ParseFloat / FormatFloat are parameters [fc]. *)
-From SigM Require Import Base Tlv TsEnc ColStore ReaderReuse.
-From SigP Require Import BaseProofs TlvProofs TsEncProofs ColStoreProofs ReaderReuseProofs.
+From SigM Require Import Base Tlv TsEnc ColStore ReaderReuse FlushSlots.
+From SigP Require Import BaseProofs TlvProofs TsEncProofs ColStoreProofs ReaderReuseProofs FlushSlotsProofs.
 Open Scope N_scope.
 
 (* ---------- codecs ---------- *)
@@ -270,3 +270,69 @@ Theorem C01_column_reader_reuse_unlisted_record_refuted : exists cap n d,
   <> [read_col INCONSISTENT n (ENC_DICT, pack_dict (N.of_nat (length d)) d)].
 Proof. exact sfr_reuse_uncovered_refuted. Qed.
 Print Assumptions C01_column_reader_reuse_unlisted_record_refuted.
+
+(* ================================================================== *)
+(* Wide events: the block flush works in waves of P = 2*GOMAXPROCS column goroutines, every goroutine of *)
+(* a wave owns one scratch buffer (FlushSlots.v: the walk of AppendWipToSegfile over the columns of the  *)
+(* segment, of which any subset may have no data in this block).                                         *)
+(* ================================================================== *)
+
+(* For every P > 0, every list of columns and every pattern of columns without data in the block: the
+   buffer handed to a goroutine exists, and two goroutines of the same wave never get the same buffer. *)
+Theorem C01_flush_wave_buffers_distinct : forall every P cols l1 l2, (0 < P)%nat ->
+  In l1 (flush_launches slot_code every P cols) -> In l2 (flush_launches slot_code every P cols) ->
+  (l_slot l1 < P)%nat /\ (l_wave l1 = l_wave l2 -> l_slot l1 = l_slot l2 -> l1 = l2).
+Proof. exact code_wave_buffers. Qed.
+Print Assumptions C01_flush_wave_buffers_distinct.
+
+(* Exactly the columns with data get a goroutine, each one, in iteration order (whatever the buffer
+   policy), and no wave has more than P goroutines. *)
+Theorem C01_flush_every_data_column_once : forall pol every P cols w,
+  map l_col (flush_launches pol every P cols) = data_cols cols 0 /\
+  ((0 < P)%nat -> (length (wave_of w (flush_launches pol every P cols)) <= P)%nat).
+Proof. exact data_cols_once. Qed.
+Print Assumptions C01_flush_every_data_column_once.
+
+(* The executable check of the case files accepts the code's policy for every input. *)
+Theorem C01_flush_slots_check_total : forall every P cols, (0 < P)%nat -> flush_slots_ok slot_code every P cols = true.
+Proof. exact code_flush_slots_ok. Qed.
+Print Assumptions C01_flush_slots_check_total.
+
+(* Under EVERY schedule of the goroutines of a wave (each compresses into its buffer, later writes the
+   buffer to its column file), every column file receives the compressed block of its own column: for
+   every compressor enc, every P > 0, every column list and pattern of skipped columns, every wave, every
+   previous content of the buffers. *)
+Theorem C01_flush_files_exact_for_every_schedule : forall enc every P cols w sch b0, (0 < P)%nat ->
+  wf_sched (wave_of w (flush_launches slot_code every P cols)) sch ->
+  forall c b, In (c, b) (exec enc b0 sch) -> b = enc c.
+Proof. exact code_flush_files_exact. Qed.
+Print Assumptions C01_flush_files_exact_for_every_schedule.
+
+(* The same for any set of goroutines whose buffers are pairwise different. *)
+Theorem C01_flush_distinct_buffers_own_bytes : forall enc ls sch b0,
+  (forall l1 l2, In l1 ls -> In l2 ls -> l_slot l1 = l_slot l2 -> l_col l1 = l_col l2) ->
+  wf_sched ls sch ->
+  forall c b, In (c, b) (exec enc b0 sch) -> b = enc c.
+Proof. exact exec_own_bytes. Qed.
+Print Assumptions C01_flush_distinct_buffers_own_bytes.
+
+(* A buffer index taken modulo P from a counter of the goroutines started so far is equally safe ... *)
+Theorem C01_flush_counter_of_started_goroutines_distinct : forall P cols l1 l2, (0 < P)%nat ->
+  In l1 (flush_launches slot_modidx false P cols) -> In l2 (flush_launches slot_modidx false P cols) ->
+  l_wave l1 = l_wave l2 -> l_slot l1 = l_slot l2 -> l1 = l2.
+Proof. exact modidx_launched_only_distinct. Qed.
+Print Assumptions C01_flush_counter_of_started_goroutines_distinct.
+
+(* ... but not from a counter of ALL columns: P = 2, three columns of which the middle one has no data in
+   the block: the first and the third goroutine run in the same wave with the same buffer, and there is a
+   schedule in which the file of column 0 receives the block of column 2 (a value migrates to another
+   column) - for every compressor. *)
+Theorem C01_flush_counter_of_all_columns_refuted :
+  (exists P cols l1 l2, (0 < P)%nat /\
+     In l1 (flush_launches slot_modidx true P cols) /\ In l2 (flush_launches slot_modidx true P cols) /\
+     l_wave l1 = l_wave l2 /\ l_slot l1 = l_slot l2 /\ l_col l1 <> l_col l2) /\
+  (exists P cols w sch, (0 < P)%nat /\
+     wf_sched (wave_of w (flush_launches slot_modidx true P cols)) sch /\
+     forall (enc : nat -> bytes) b0, In (0%nat, enc 2%nat) (exec enc b0 sch)).
+Proof. exact modidx_every_refuted_both. Qed.
+Print Assumptions C01_flush_counter_of_all_columns_refuted.
